@@ -91,6 +91,8 @@ def main(tier, seed):
             mt, mend = m.split(" ", 1)
             mt = dec_text(mt)
             ends[mend.split(" ")[0]] = ends.get(mend.split(" ")[0], 0) + 1
+            if rc == "timeout" and mend != "hang":
+                so, se, rc = run_repl((s, 60))      # loaded machine: one much longer retry before judging
             # property oracle: what the session shows = what the whole run writes
             whole_o, whole_e, whole_end = summarize(rec)
             wo, we = dec_text(whole_o or "-"), dec_text(whole_e or "-")
